@@ -1,22 +1,90 @@
 import IstioModel.Common.Wire
 import IstioModel.C07.Host
+import IstioModel.C07.Vis
 
 /-! Line-protocol driver for C07 (streams `host`, `vis`, `scope`). See harness/c07. -/
 namespace IstioModel.C07
 open IstioModel.Wire
 
+/-- sorted, de-duplicated (for Go sets / map keys) -/
+def sortDedup (l : List String) : List String :=
+  let s := l.mergeSort (fun a b => !(b < a))
+  s.foldr (fun x acc => match acc with
+    | y :: _ => if x = y then acc else x :: acc
+    | [] => [x]) []
+
+def encSet (l : List String) : String := encList (sortDedup l)
+
+def decItems (t : String) (sep : String) : List String :=
+  if t == "-" then [] else (t.splitOn sep).map dec
+
+def decOptList (t : String) : Option (List String) :=
+  if t == "nil" then none else some (decItems t ",")
+
+def cut (t sep : String) : String × String :=
+  match t.splitOn sep with
+  | a :: rest => (a, sep.intercalate rest)
+  | [] => (t, "")
+
+def decPorts (t : String) : List Port :=
+  if t == "-" then [] else (t.splitOn ",").map fun it =>
+    let (a, b) := cut it "|"
+    { num := a.toNat!, name := dec b }
+
+def decAliases (t : String) : List (String × String) :=
+  if t == "-" then [] else (t.splitOn ",").map fun it =>
+    let (a, b) := cut it "|"
+    (dec a, dec b)
+
+def flagOf (toks : List String) (key : String) (dflt : Bool) : Bool :=
+  match toks.find? (fun t => t.startsWith (key ++ "=")) with
+  | some t => t == key ++ "=1"
+  | none => dflt
+
 structure DState where
-  dummy : Nat := 0
+  unified : Bool := true
+  pickBest : Bool := true
+  enhanced : Bool := true
+  mesh : Mesh := {}
+  raw : List Svc := []        -- as declared
+  built : Bool := false
+  svcs : List Svc := []       -- creation-ordered (after `build`)
 
 def hostLine (n m : String) : String :=
   " ".intercalate [boolTok (isWild n), boolTok (isWild m),
     boolTok (hostMatches n m), boolTok (hostMatches m n),
     boolTok (subsetOf n m), boolTok (subsetOf m n)]
 
+def decVis : String → SEVis
+  | "n" => .ns | "x" => .none | _ => .pub
+
+def query (d : DState) (toks : List String) : String :=
+  match toks with
+  | ["exported", ns] => encList ((servicesExportedToNamespace d.mesh d.svcs (dec ns)).map (·.id))
+  | ["visible", id, ns] =>
+    match d.svcs.find? (·.id == dec id) with
+    | none => "no-such-service"
+    | some s => boolTok (isServiceVisible d.mesh s (dec ns)) ++ " " ++ encSet (serviceExportTo d.mesh s)
+  | ["index", h] =>
+    let items := (byNamespace d.svcs (dec h)).map fun (ns, s) => enc ns ++ "=" ++ enc s.id
+    let items := items.mergeSort (fun a b => !(b < a))
+    if items.isEmpty then "-" else ",".intercalate items
+  | _ => "bad-op"
+
 def stepD (d : DState) (toks : List String) : DState × String :=
   match toks with
-  | "case" :: _ => ({}, "ok")
+  | "case" :: rest =>
+    ({ unified := flagOf rest "U" true, pickBest := flagOf rest "P" true, enhanced := flagOf rest "E" true }, "ok")
   | ["h", n, m] => (d, hostLine (dec n) (dec m))
-  | _ => (d, "bad-op")
+  | ["mesh", root, ds, dv, dd, ap] =>
+    ({ d with mesh := { rootNs := dec root, defSvc := decOptList ds, defVS := decOptList dv,
+                        defDR := decOptList dd, applyToSidecars := tokBool ap } }, "ok")
+  | ["svc", id, h, ns, reg, ct, name, ports, ex, vis, res, attr, al] =>
+    let s : Svc := { id := dec id, hostname := dec h, ns := dec ns, name := dec name, k8s := reg == "k",
+                     ctime := ct.toNat!, ports := decPorts ports, exportTo := decItems ex ",",
+                     vis := decVis vis, resolution := res.toNat!, attr := dec attr, aliases := decAliases al }
+    ({ d with raw := d.raw ++ [s] }, "ok")
+  | ["build"] => ({ d with built := true, svcs := sortServices d.raw }, "ok")
+  | _ => if d.built then (d, query d toks) else (d, "not-built")
 
 end IstioModel.C07
